@@ -37,3 +37,7 @@ package common
 //@   ensures !dgramErr() && dgramLen() >= 10 && dgram(0) == 0 && dgram(1) == 0 && dgram(2) == 0 && dgram(3) == 1 && dgramLen() - 10 <= mathint(len(p)) ==> err == nil && mathint(n) == dgramLen() - 10
 //@   ensures !dgramErr() && dgramLen() >= 10 && dgram(0) == 0 && dgram(1) == 0 && dgram(2) == 0 && dgram(3) == 1 && dgramLen() - 10 <= mathint(len(p)) ==> forall(i, 0, n, p[i] == dgram(10 + mathint(i)))
 //@   ensures err == nil ==> 0 <= n && n <= len(p)
+//@   // the same for an IPv6-addressed datagram (22-byte header): the scratch buffer leaves room
+//@   // for the longest header in front of a payload that exactly fills the caller's buffer
+//@   ensures !dgramErr() && dgramLen() >= 22 && dgram(0) == 0 && dgram(1) == 0 && dgram(2) == 0 && dgram(3) == 4 && dgramLen() - 22 <= mathint(len(p)) ==> err == nil && mathint(n) == dgramLen() - 22
+//@   ensures !dgramErr() && dgramLen() >= 22 && dgram(0) == 0 && dgram(1) == 0 && dgram(2) == 0 && dgram(3) == 4 && dgramLen() - 22 <= mathint(len(p)) ==> forall(i, 0, n, p[i] == dgram(22 + mathint(i)))
